@@ -580,17 +580,69 @@ func checkEvaluatorPipeline(r *Run, prog *Program, a *Anchors, pfx string) {
 				r.Check(pfx+".pipeline", "evaluate:options-literal", prog.pos(ev.Instr.Pos()), false, "the options Evaluate hands to the dispatcher are not a literal list of re-issued options: "+shortKey(ev.Args[2]))
 				continue
 			}
-			got := map[string]string{}
-			var order []string
+			// what the list does to an options struct, element by element: a constructor applied to one value sets its field
+			// to that value; any other function value (a closure written in place, a bound method) is applied symbolically.
+			// A conditional element splits the judgement.
+			type variant struct {
+				st  *pstate
+				got map[string]string // constructor name -> the value it is given (for the unknown value: what the pointer stored points to)
+			}
+			variants := []variant{{sm.St, map[string]string{}}}
+			ctorOfField := map[string]string{}
+			for _, row := range pipeSpec {
+				ctorOfField[row.field] = row.ctor
+			}
+			okForm := true
 			for _, el := range elems {
 				callee, _ := calleeOfSym(el)
 				args := symArgs(sm.St, el)
-				if callee == nil || len(args) != 1 {
-					r.Check(pfx+".pipeline", "evaluate:option-form", prog.pos(ev.Instr.Pos()), false, "an option handed to the dispatcher is not a constructor applied to one value: "+shortKey(el))
+				if callee != nil && len(args) == 1 && optField(prog, callee.Name()) != "" {
+					for i := range variants {
+						variants[i].got[callee.Name()] = args[0].Key()
+					}
 					continue
 				}
-				got[callee.Name()] = args[0].Key()
-				order = append(order, callee.Name())
+				po := &Sym{K: sOpaque, Str: "options-argument"}
+				var next []variant
+				for _, v := range variants {
+					before := len(v.st.events)
+					applied := psE.ApplyClosure(v.st, el, []*Sym{po})
+					if applied == nil {
+						okForm = false
+						break
+					}
+					for _, am := range applied {
+						g := map[string]string{}
+						for k, x := range v.got {
+							g[k] = x
+						}
+						for _, se := range am.St.events[before:] {
+							if !se.Store {
+								continue
+							}
+							addr, val := se.Args[0], se.Args[1]
+							if addr.K != sFieldAddr || addr.A.Key() != po.Key() || ctorOfField[addr.Str] == "" {
+								okForm = false
+								continue
+							}
+							c := ctorOfField[addr.Str]
+							if c == "WithUnknownValue" {
+								g[c] = (&Sym{K: sLoad, A: val}).Key() // the value the stored pointer points to
+							} else {
+								g[c] = val.Key()
+							}
+						}
+						next = append(next, variant{am.St, g})
+					}
+				}
+				if !okForm {
+					break
+				}
+				variants = next
+			}
+			if !okForm {
+				r.Check(pfx+".pipeline", "evaluate:option-form", prog.pos(ev.Instr.Pos()), false, "an option handed to the dispatcher is neither a constructor applied to one value nor a function value whose effect on the options can be followed")
+				continue
 			}
 			unkField := ""
 			for _, row := range pipeSpec {
@@ -599,33 +651,37 @@ func checkEvaluatorPipeline(r *Run, prog *Program, a *Anchors, pfx string) {
 				}
 			}
 			unk := loadField(pRecv, unkField)
-			unkNil, known := evalEq(sm.St, unk, nilSym())
-			for _, row := range pipeSpec {
-				if !row.reissued {
-					if _, has := got[row.ctor]; has {
-						r.Check(pfx+".pipeline", "evaluate:"+row.ctor, prog.pos(ev.Instr.Pos()), false, row.ctor+" is re-issued on Evaluate although it only concerns creation")
-					}
-					continue
-				}
-				want := loadField(pRecv, row.evalField).Key()
-				if row.evalField == "" {
-					continue
-				}
-				if row.ctor == "WithUnknownValue" {
-					if !known {
-						r.Check(pfx+".pipeline", "evaluate:"+row.ctor, prog.pos(ev.Instr.Pos()), false, "Evaluate does not test whether an unknown value was configured")
+			npaths += len(variants) - 1 // a conditional element judged both ways counts like two paths
+			for _, vr := range variants {
+				got := vr.got
+				unkNil, known := evalEq(vr.st, unk, nilSym())
+				for _, row := range pipeSpec {
+					if !row.reissued {
+						if _, has := got[row.ctor]; has {
+							r.Check(pfx+".pipeline", "evaluate:"+row.ctor, prog.pos(ev.Instr.Pos()), false, row.ctor+" is re-issued on Evaluate although it only concerns creation")
+						}
 						continue
 					}
-					want = (&Sym{K: sLoad, A: unk}).Key()
-					if unkNil {
-						_, has := got[row.ctor]
-						r.Check(pfx+".pipeline", "evaluate:"+row.ctor+":unset", prog.pos(ev.Instr.Pos()), !has, "an unknown value is issued although none was configured")
+					want := loadField(pRecv, row.evalField).Key()
+					if row.evalField == "" {
 						continue
 					}
+					if row.ctor == "WithUnknownValue" {
+						if !known {
+							r.Check(pfx+".pipeline", "evaluate:"+row.ctor, prog.pos(ev.Instr.Pos()), false, "Evaluate does not test whether an unknown value was configured")
+							continue
+						}
+						want = (&Sym{K: sLoad, A: unk}).Key()
+						if unkNil {
+							_, has := got[row.ctor]
+							r.Check(pfx+".pipeline", "evaluate:"+row.ctor+":unset", prog.pos(ev.Instr.Pos()), !has, "an unknown value is issued although none was configured")
+							continue
+						}
+					}
+					g, has := got[row.ctor]
+					r.Check(pfx+".pipeline", "evaluate:"+row.ctor, prog.pos(ev.Instr.Pos()), has && g == want,
+						fmt.Sprintf("every Evaluate must re-issue %s with the creation-time value (Evaluator.%s); issued: %v (%s)", row.ctor, row.evalField, has, g))
 				}
-				g, has := got[row.ctor]
-				r.Check(pfx+".pipeline", "evaluate:"+row.ctor, prog.pos(ev.Instr.Pos()), has && g == want,
-					fmt.Sprintf("every Evaluate must re-issue %s with the creation-time value (Evaluator.%s); issued: %v (%s)", row.ctor, row.evalField, has, g))
 			}
 		}
 	}
